@@ -76,6 +76,11 @@ def gen_abstract(rng, fmt):
     r = {"re": re_, "pr": pr_, "pseudo_re": [], "pseudo_pr": [],
          "alpha": num(rng, "alpha"), "beta": num(rng, "beta"), "gamma": num(rng, "gamma"),
          "tmin": rng.choice([-9999.0, 10.0, 5.0, 100.0]), "tmax": rng.choice([9999.0, 300.0, 41000.0, 800.0])}
+    shape = rng.random()
+    if shape < 0.15:        # a lower bound only (the upper one is the "unbounded" sentinel): tmin > tmax
+        r["tmin"], r["tmax"] = rng.choice([300.0, 100.0, 10.0]), -1.0
+    elif shape < 0.25:      # an upper bound only
+        r["tmin"], r["tmax"] = -1.0, rng.choice([300.0, 800.0])
     if fmt == "leeds" and rng.random() < 0.4:   # numbers that use every character of their column
         r["beta"], r["gamma"], r["tmin"], r["tmax"] = -12345.68, -1234567.5, 10000.0, 41000.0
     return r
